@@ -10,6 +10,7 @@ import (
 	"os"
 	"runtime/debug"
 	"sort"
+	"sync"
 	"time"
 
 	"cosmossdk.io/log"
@@ -180,6 +181,7 @@ type World struct {
 	Dead    bool
 	Gov     string
 
+	CommitMu     sync.Locker // if set, held exclusively around Commit (the committing ABCI client's discipline)
 	GenesisBytes []byte
 	probes       []interface{}
 	cur          *BlockRecord
@@ -571,7 +573,14 @@ func (w *World) RunBlock(dt int64, txs ...*TxRecord) *BlockRecord {
 				w.FailLogs[mt] = lg
 			}
 		}
-		if err, stack := SafeCommit(w.App); err != nil {
+		if w.CommitMu != nil {
+			w.CommitMu.Lock()
+		}
+		err, stack := SafeCommit(w.App)
+		if w.CommitMu != nil {
+			w.CommitMu.Unlock()
+		}
+		if err != nil {
 			blk.Err, blk.Stack = "Commit: "+err.Error(), stack
 			w.Dead = true
 		}
